@@ -814,6 +814,54 @@ def r3_nsga2(ctx) -> None:
             why_extra='rank is not the count over the dominating points (sum over axis 0)')
     return
   if comp is None:
+    # broadcast form: `ys[:, newaxis]` varies along axis 0, `ys[newaxis]` along axis 1; the points summed over are the
+    # dominating ones
+    env_b: Dict[str, ast.AST] = {}
+    ret = None
+    for st in fi.node.body:
+      if isinstance(st, ast.Assign) and len(st.targets) == 1 and isinstance(st.targets[0], ast.Name):
+        env_b[st.targets[0].id] = pathcond_sub(env_b, st.value)
+      elif isinstance(st, ast.Return) and st.value is not None:
+        ret = pathcond_sub(env_b, st.value)
+    arr = fi.params[0]
+
+    def bcast_axis(x) -> Optional[int]:
+      """Axis along which `arr[...]` varies after inserting a new axis (None: not such an expression)."""
+      if not (isinstance(x, ast.Subscript) and isinstance(x.value, ast.Name) and x.value.id == arr):
+        return None
+      def is_new(z):
+        return (isinstance(z, ast.Constant) and z.value is None) or (dotted(z) or '').endswith('newaxis')
+      def is_full(z):
+        return isinstance(z, ast.Slice) and z.lower is None and z.upper is None and z.step is None
+      sl = x.slice
+      elts = list(sl.elts) if isinstance(sl, ast.Tuple) else [sl]
+      if len(elts) == 1 and is_new(elts[0]):
+        return 1
+      if len(elts) >= 2 and is_new(elts[0]) and all(is_full(z) for z in elts[1:]):
+        return 1
+      if len(elts) == 2 and is_full(elts[0]) and is_new(elts[1]):
+        return 0
+      if len(elts) == 3 and is_full(elts[0]) and is_new(elts[1]) and is_full(elts[2]):
+        return 0
+      return None
+    red = None
+    if ret is not None:
+      for n in ast.walk(ret):
+        r_ = reduction(n)
+        if r_ is not None and r_[0] == 'sum':
+          red = r_
+    if red is not None and any(bcast_axis(x) is not None for x in ast.walk(red[1])):
+      axis = red[2]
+
+      def role_b(x):
+        ax = bcast_axis(x)
+        if ax is None or axis not in (0, 1):
+          return None
+        return 'B' if ax == axis else 'A'
+      pred = parse_pred(red[1], role_b, {})
+      _report(ctx, 'nsga2._pareto_rank', red[1], fi, pred, 'dominated', extra_ok=axis in (0, 1),
+              why_extra='rank is not the count over the dominating points (sum over one of the two point axes)')
+      return
     if difference_compares(fi.node):
       ctx.bad('R3', 'nsga2._pareto_rank', fi.node,
               'the dominance predicate is computed on coordinate differences (see R5), not by comparing coordinates',
